@@ -3,3 +3,11 @@
 package verifsim
 
 const raceEnabled = true
+
+// In -race builds the harness must not synchronise on engine goroutines
+// (it would add happens-before edges and hide engine races). Workers run
+// with GOMAXPROCS=1 there, so the short hand-off windows in which two
+// goroutines touch harness state within one fake instant are serialised by
+// the Go scheduler itself.
+func harnessLock()   {}
+func harnessUnlock() {}
